@@ -7,6 +7,7 @@ must be a complete no-op (observable state and object identities).
 """
 import copy as _copy
 import itertools
+import os
 import json
 import random
 import numpy as np
@@ -215,6 +216,8 @@ class DatasetWorld(object):
     # ------------------------------------------------------------------ generation
     def gen_step(self, rng):
         cfg = self.cfg
+        if getattr(self, "dead", False):
+            return None
         if not self.started:
             self.started = True
             return self._gen_start(rng)
@@ -623,13 +626,32 @@ class DatasetWorld(object):
         if op == "_enum_marker":
             # replay files contain the expanded steps, not the marker
             return "ok"
-        if op != "new" and self.ds is None:
+        if (op != "new" and self.ds is None) or getattr(self, "dead", False):
             return "skipped"
         try:
             fn = getattr(self, "x_" + op)
             out = fn(step)
         except Skip:
             return "skipped"
+        except Violation:
+            raise
+        except Exception as e:
+            if not raised_in_library(e):
+                raise
+            # the library refused or broke on a step the model considers legal
+            if "C13" in self.props and op != "dsop":
+                raise Violation("C13", "ds_mutation_raises", "%s (%s) raised %s: %s" % (
+                    op, ", ".join("%s=%r" % kv for kv in sorted(step.items()) if kv[0] not in ("op", "spec")), type(e).__name__, str(e)[:160]))
+            self.dead = True      # another property's run: the model cannot follow, the run ends here without a verdict
+            self.count("world_stopped_library_raised_in_%s" % op)
+            return "raise:" + type(e).__name__
+        if "C13" not in self.props and self.ds is not None and op != "dsop":
+            try:
+                self.check_invariants(self.ds, self.model, "after %s" % op)
+            except Violation:
+                self.dead = True  # C13's business; here the model has lost track, so the run ends without a verdict
+                self.count("world_stopped_model_diverged")
+                return out
         if op == "dsop":
             if not step.get("adopt") and not step.get("repeat"):
                 self.last_dsop = step
@@ -1099,6 +1121,16 @@ class DatasetWorld(object):
     def x_dsop(self, s):
         from dsim.worlds import dataset_ops
         return dataset_ops.run_dsop(self, s)
+
+
+def raised_in_library(e):
+    """True if the exception was raised inside dimarray / numpy rather than in harness code."""
+    tb = e.__traceback__
+    last = None
+    while tb is not None:
+        last = tb.tb_frame.f_code.co_filename
+        tb = tb.tb_next
+    return last is not None and (os.sep + "dsim" + os.sep) not in last
 
 
 def donor_key(a):
